@@ -55,8 +55,10 @@ def plan_outcome(plan, idx, kd):
     one half of the argument space (decided by the kwargs digest), so that the same node fails for some inputs /
     runs and succeeds for others - still a pure function of (declaration, arguments, attempt)."""
     outcome = plan[idx] if idx < len(plan) else 'ok'
-    if outcome.endswith('?'):
-        outcome = outcome[:-1] if int(kd, 16) % 2 == 0 else 'ok'
+    if '?' in outcome:
+        # 'X?' = X for one half of the argument space, ok for the other; 'X?Y' = X for one half, Y for the other
+        first, other = outcome.split('?', 1)
+        outcome = first if int(kd, 16) % 2 == 0 else (other or 'ok')
     return outcome
 
 
@@ -433,7 +435,9 @@ class StubExecutor:
         self._shutdown_thread = False
 
     def shutdown(self, *a, **k):
-        pass
+        # what the real executors do when their owner shuts them down
+        self._shutdown = True
+        self._shutdown_thread = True
 
     def submit(self, *a, **k):  # pragma: no cover
         raise RuntimeError('StubExecutor.submit must not be reached under SimLoop')
@@ -449,7 +453,8 @@ _REG = {}
 
 def setup_registries(state: str = 'both'):
     """Once per process, public API only.  state in both|no-thread|no-process|thread-shutdown|
-    process-shutdown|no-manager"""
+    process-shutdown|no-manager|thread-shutdown-late|process-shutdown-late (registered healthy; the owner shuts the
+    executor down after a first successful use: flip_late())"""
     if _REG:
         if _REG['state'] != state:
             raise RuntimeError('registry state is fixed per process')
@@ -473,6 +478,19 @@ def setup_registries(state: str = 'both'):
         pr._shutdown_thread = True
     _REG.update(state=state, thread=th, process=pr)
     return _REG
+
+
+def flip_late():
+    """'-late' registry states: the owner of the pool shuts the executor down directly (executor.shutdown(), not
+    registry.shutdown()) after the registry has already seen it healthy in an earlier run."""
+    st = _REG.get('state', '')
+    if not st.endswith('-late') or _REG.get('flipped'):
+        return
+    if st == 'thread-shutdown-late':
+        _REG['thread'].shutdown()
+    else:
+        _REG['process'].shutdown()
+    _REG['flipped'] = True
 
 
 def quiet_logging():
